@@ -30,7 +30,7 @@ BUDGET = {"quick": 1600, "thorough": 24000}     # histories
 MIN_NONTRIVIAL = {"quick": 2000, "thorough": 20000}
 REQUIRED_FUNCTIONS = ["listener.py:parse", "listener.py:BlackbirdListener.enterProgram", "listener.py:BlackbirdListener.exitProgram", "__init__.py:load", "__init__.py:loads"]
 FUNCTIONS = REQUIRED_FUNCTIONS
-REQUIRED_HOOKS = ["parse-entry"]
+REQUIRED_HOOKS = ["parse-entry", "process-settings-compared"]
 REQUIRED_TAGS = ["after:syntax-failure", "after:undefined-name-failure", "after:type-failure", "after:loop-failure", "after:include-failure", "after:other-failure",
                  "after:success", "probe", "kind:template", "kind:tdm", "kind:include", "kind:regref"]
 ASSUMPTIONS = ["a forked child of a process that imported blackbird and loaded nothing is a pristine process (same hash seed)",
@@ -70,6 +70,13 @@ STATIC = [
     ("regref", H % "g2" + "MeasureX | 0\nMeasureX | 1\nG(q0*0.30000000000000004) | 2\nH(q0*q1 - 2, q0) | 3\nK(k=[1, 2], l=q1/2) | 4\n"),
     ("regref", H % "g3" + "float alpha = 0.3\nMeasureP | 0\nfor int m in 1:3\n    G(q0*alpha, q0*2 + m) | m\nH(q0*0.3) | 5\n"),
     ("template", H % "g4" + "MeasureX | 1\nG({r}, q1/2, k=q1*{alpha}) | 0\nH(q1 / 2) | 2\n"),
+    # digit strings beyond what the interpreter converts by default (4300 digits): integer literals, register names,
+    # range bounds and declared shapes all go through int(); pristine, each of these loads fails on its own
+    ("fail-other", H % "h1" + "float alpha = 0.5\nG(" + "7" * 5000 + ") | 0\n"),
+    ("fail-other", H % "h2" + "MeasureX | 0\nZgate(q" + "0" * 4400 + ") | 1\n"),
+    ("fail-other", H % "h3" + "int m = 1\nfor int r in 0:1:" + "1" * 4500 + "\n    G | 0\n"),
+    ("fail-other", H % "h4" + "float array A[" + "1" * 4400 + ", 1] =\n    1\nG(A) | 0\n"),
+    ("valid", H % "h5" + "G(" + "7" * 4000 + ", 1." + "3" * 5000 + ") | 0\n"),
     ("probe", H % "p1" + "target dev (shots=alpha)\nG | 0\n"),
     ("probe", H % "p2" + "target dev (x=m, y=2)\nG | 0\n"),
     ("probe", H % "p3" + "type custom (k=A)\nG | 0\n"),
@@ -163,6 +170,46 @@ def pristine(kind, payload):
     if not data:
         raise RuntimeError("pristine child produced no outcome")
     return pickle.loads(data)
+
+
+def process_settings():
+    """Process-wide settings of the interpreter and of the libraries the package uses: a load - successful or not - must
+    leave them as it found them, or later loads (and the rest of the application) behave differently."""
+    import decimal
+    import locale
+    import sys
+    import warnings
+
+    import numpy as np
+
+    out = {}
+    out["sys.int_max_str_digits"] = sys.get_int_max_str_digits() if hasattr(sys, "get_int_max_str_digits") else None
+    out["sys.recursionlimit"] = sys.getrecursionlimit()
+    out["sys.tracebacklimit"] = getattr(sys, "tracebacklimit", None)
+    out["sys.path"] = tuple(sys.path)
+    out["sys.excepthook"] = id(sys.excepthook)
+    out["os.cwd"] = os.getcwd()
+    out["os.environ"] = hash(tuple(sorted(os.environ.items())))
+    out["os.umask"] = None
+    out["numpy.errstate"] = tuple(sorted(np.geterr().items()))
+    out["numpy.printoptions"] = repr(sorted(np.get_printoptions().items()))
+    out["warnings.filters"] = tuple((f[0], str(f[1]), f[2], str(f[3]), f[4]) for f in warnings.filters)
+    out["warnings.showwarning"] = id(warnings.showwarning)
+    out["decimal.context"] = repr(decimal.getcontext())
+    out["locale"] = locale.setlocale(locale.LC_ALL, None)
+    try:
+        from sympy.core.parameters import global_parameters as gp
+
+        out["sympy.global_parameters"] = (gp.evaluate, gp.distribute, getattr(gp, "exp_is_pow", None))
+    except Exception:
+        pass
+    try:
+        import mpmath
+
+        out["mpmath.precision"] = (mpmath.mp.prec, mpmath.mp.dps)
+    except Exception:
+        pass
+    return out
 
 
 class Probe:
@@ -315,7 +362,16 @@ def run(ctx):
                         set_inner(inner_state)
                         ctx.observe("included file rewritten between loads")
                     m = dict(m, pristine=m["pristine_by_state"][inner_state])
+                before = process_settings()
                 o, p = outcome(m["kind"], m["payload"])
+                after = process_settings()
+                ctx.hook("process-settings-compared")
+                if after != before:
+                    changed = sorted(k for k in after if after[k] != before.get(k))
+                    ctx.violation("process-wide-setting-changed:" + ",".join(changed),
+                                  "a load of class %s (outcome %s) changed process-wide settings: %s" % (
+                                      m["cls"], _short(o), "; ".join("%s: %r -> %r" % (k, before.get(k), after[k]) for k in changed)[:400]),
+                                  {"history": [{"kind": m["kind"], "payload": (m["payload"] if m["kind"] == "text" else open(m["payload"]).read())[:3000], "cls": m["cls"]}]})
                 ctx.hook("parse-entry", len(Probe.entries))
                 if Probe.entries and (Probe.entries[0][0] or Probe.entries[0][1]):
                     polluted_entries += 1
